@@ -229,6 +229,12 @@ Proof.
   - (* ConnFail *) destruct (find_task s k) as [[i kd p]|] eqn:Ft; [|auto]. destruct (task_not_stopped s k _ G Ft) as (NS & Kn).
     destruct p; cbn [fst snd]; (split; [|congruence]); auto.
     apply GI_finish; [apply GI_task_queue; auto|rewrite next_task_queue; exact Kn].
+  - (* Begin *) destruct (find_task s k) as [[i kd p]|] eqn:Ft; [|auto]. destruct (task_not_stopped s k _ G Ft) as (NS & Kn).
+    destruct kd, p; cbn [fst snd]; try (split; [auto|congruence]).
+    destruct (sstate s); cbn [fst snd]; auto using GI_with_state.
+  - (* Interrupt *) destruct (find_task s k) as [[i kd p]|] eqn:Ft; [|auto]. destruct (task_not_stopped s k _ G Ft) as (NS & Kn).
+    destruct kd, p; cbn [fst snd]; (split; [|congruence]); auto.
+    apply GI_finish; [destruct (sstate s); auto using GI_with_state|destruct (sstate s); try rewrite next_with_state; exact Kn].
   - (* Finish *) destruct (find_task s k) as [[i kd p]|] eqn:Ft; [|auto]. destruct (task_not_stopped s k _ G Ft) as (NS & Kn).
     destruct kd, p; cbn [fst snd]; (split; [|congruence]); auto.
     apply GI_finish; [destruct (sstate s); auto using GI_with_state|destruct (sstate s); try rewrite next_with_state; exact Kn].
